@@ -26,6 +26,12 @@ func init() {
 			Edits: []Edit{{File: logs, Old: "import (\n\t\"context\"\n", New: "import (\n\t\"context\"\n\t\"strings\"\n"}}, Expect: "R20a:(*internal/storage/ledgerstore.Store).logsQueryBuilder$1$1:operator-never-becomes-sql-text"},
 		Mutant{Property: "C20", Name: "reference-value-inlined", File: txs,
 			Old: "\t\tcase key == \"reference\" || key == \"timestamp\":\n\t\t\treturn fmt.Sprintf(\"%s %s ?\", key, query.DefaultComparisonOperatorsMapping[operator]), []any{value}, nil", New: "\t\tcase key == \"reference\" || key == \"timestamp\":\n\t\t\treturn fmt.Sprintf(\"%s %s '%v'\", key, query.DefaultComparisonOperatorsMapping[operator], value), nil, nil", Expect: "R20a:(*internal/storage/ledgerstore.Store).transactionQueryContext$1:value-never-becomes-sql-text"},
+		Mutant{Property: "C20", Name: "reference-value-as-bun-safe", File: txs,
+			Old: "\t\tcase key == \"reference\" || key == \"timestamp\":\n\t\t\treturn fmt.Sprintf(\"%s %s ?\", key, query.DefaultComparisonOperatorsMapping[operator]), []any{value}, nil", New: "\t\tcase key == \"reference\" || key == \"timestamp\":\n\t\t\treturn fmt.Sprintf(\"%s %s ?\", key, query.DefaultComparisonOperatorsMapping[operator]), []any{bun.Safe(fmt.Sprint(value))}, nil", Expect: "R20d:"},
+		Mutant{Property: "C20", Name: "key-as-bun-ident-after-constant-test", File: txs,
+			Old: "\t\tcase key == \"reference\" || key == \"timestamp\":\n\t\t\treturn fmt.Sprintf(\"%s %s ?\", key, query.DefaultComparisonOperatorsMapping[operator]), []any{value}, nil", New: "\t\tcase key == \"reference\" || key == \"timestamp\":\n\t\t\treturn fmt.Sprintf(\"? %s ?\", query.DefaultComparisonOperatorsMapping[operator]), []any{bun.Ident(\"transactions.reference\"), value}, nil", Expect: "none", Benign: true},
+		Mutant{Property: "C20", Name: "pit-as-safe-query-from-request", File: acc,
+			Old: "\t\t\tWhere(\"accounts.address = ?\", q.Addr).", New: "\t\t\tWhere(\"accounts.address = ?\", bun.Safe(\"'\"+q.Addr+\"'\")).", Expect: "R20d:"},
 		Mutant{Property: "C20", Name: "unknown-key-passed-through", File: logs,
 			Old: "\t\t\t\tdefault:\n\t\t\t\t\treturn \"\", nil, fmt.Errorf(\"unknown key '%s' when building query\", key)", New: "\t\t\t\tdefault:\n\t\t\t\t\treturn key + \" = ?\", []any{value}, nil", Expect: "R20a:(*internal/storage/ledgerstore.Store).logsQueryBuilder$1$1:key-never-becomes-sql-text"},
 		Mutant{Property: "C20", Name: "combinator-operator-from-client", File: expr,
